@@ -7,7 +7,7 @@ use crate::util::*;
 use proptest::prelude::*;
 use serde::{Deserialize, Serialize};
 use serde_json::json;
-use text2num::replace_numbers_in_text;
+use text2num::{replace_numbers_in_text, LangInterpreter};
 
 #[derive(Clone, Debug, Hash, Serialize, Deserialize)]
 pub struct Case {
@@ -90,6 +90,11 @@ impl Property for C10 {
             return Ok(());
         }
         let th = th_of(c.th_bits);
+        // a separator word that the language (now) publishes as a linking word makes S not "strong"
+        if c.sep.split(|ch: char| !ch.is_alphanumeric()).filter(|w| !w.is_empty()).any(|w| lg.is_linking(&w.to_lowercase()) || text2num::text2digits(w, lg).is_ok()) {
+            obs.exclude("separator-word-is-linking-or-number-in-this-tree");
+            return Ok(());
+        }
         let whole = format!("{}{}{}", c.a_text, c.sep, c.b_text);
         let out = replace_numbers_in_text(&whole, lg, th);
         let ra = replace_numbers_in_text(&c.a_text, lg, th);
